@@ -139,4 +139,30 @@ CACHE_RES = dict(
                           params=["task_dict", "resource_dict"], returns=["task_resource_dict", "task_dict", "resource_dict"])),
     ])
 
-TARGETS = [INPUTCHECK, SPAWNER, COMMUNICATION, BACKEND, SHARED_PATH, CACHE_CMD, WORKER_SERIAL, WORKER_PARALLEL, SHARED_RES, CACHE_RES]
+CONFIG_INTER = dict(
+    out="ConfigInter", file="executorlib/interactive/executor.py", requires=["InputCheck"],
+    funcs=[
+        dict(py="create_executor", inout=["resource_dict"],
+             record_calls=["InteractiveExecutor", "InteractiveStepExecutor"],
+             names=["MpiExecSpawner", "SrunSpawner", "FluxPythonSpawner"]),
+    ])
+
+CONFIG_FILE = dict(
+    out="ConfigFile", file="executorlib/cache/executor.py", requires=["InputCheck"],
+    funcs=[
+        dict(py="create_file_executor", record_calls=["FileExecutor"]),
+    ])
+
+CONFIG_TOP = dict(
+    out="ConfigTop", file="executorlib/__init__.py", requires=["InputCheck", "ConfigInter", "ConfigFile"],
+    funcs=[
+        dict(py="Executor.__new__", name="Executor_new", inout=["resource_dict"],
+             record_calls=["_ExecutorWithDependencies"],
+             aliases={"_create_executor": "create_executor",
+                      "_check_pysqa_config_directory": "check_pysqa_config_directory",
+                      "_check_plot_dependency_graph": "check_plot_dependency_graph",
+                      "_check_refresh_rate": "check_refresh_rate"},
+             ),
+    ])
+
+TARGETS = [INPUTCHECK, SPAWNER, COMMUNICATION, BACKEND, SHARED_PATH, CACHE_CMD, WORKER_SERIAL, WORKER_PARALLEL, SHARED_RES, CACHE_RES, CONFIG_INTER, CONFIG_FILE, CONFIG_TOP]
